@@ -374,7 +374,9 @@ fn main() {
                 }
                 3..=7 => {
                     let s = if rng.chance(p_skip, 10) { rng.range(1, max_slot) } else { rng.range(root.max(1), (root + 5).min(max_slot)) };
-                    if never_skip.contains(&s) { continue; }
+                    // the slot of a root (and anything certified that a root was pruned over) is never skip-marked while
+                    // retained; marks strictly below the root are fair game (they must be ignored)
+                    if never_skip.contains(&s) && s >= root { continue; }
                     DOp::Skip(s)
                 }
                 8 => DOp::Query(W * rng.range(1, 4)),
